@@ -5,6 +5,7 @@ import (
 	"reflect"
 	"strconv"
 	"strings"
+	"time"
 	"unsafe"
 
 	listz "verifharness/gen/synclistshim"
@@ -166,6 +167,15 @@ func (t *listTarget) Call(c string) string {
 	case c == "w": // PopWait(d < 0): Pop in a Gosched loop until it succeeds
 		v, ok := t.l.PopWait(-1)
 		return fmt.Sprintf("ret pop %d %v", v, ok)
+	case len(c) > 1 && c[0] == 't': // PopWait(d>0), deadline observed on its k-th tick
+		k, err := strconv.Atoi(c[1:])
+		if err != nil || k < 1 {
+			return "bad-call"
+		}
+		// the scheduler's time shim: k-1 deadline tests say "not yet", the k-th "reached"
+		sched.SetTicksSelf(k - 1)
+		v, ok := t.l.PopWait(time.Hour)
+		return fmt.Sprintf("ret pop %d %v", v, ok)
 	case c == "z": // PopWait(0): a single Pop
 		v, ok := t.l.PopWait(0)
 		return fmt.Sprintf("ret pop %d %v", v, ok)
@@ -213,6 +223,12 @@ func parseHeader(line string) (ninit int, progs [][]string, ok bool) {
 		for _, c := range p {
 			if c == "o" || c == "l" || c == "w" || c == "z" {
 				continue
+			}
+			if len(c) > 1 && c[0] == 't' {
+				if k, err := strconv.Atoi(c[1:]); err == nil && k >= 1 && k <= 64 {
+					continue
+				}
+				return 0, nil, false
 			}
 			if !strings.HasPrefix(c, "u") {
 				return 0, nil, false
